@@ -362,7 +362,9 @@ MANIFEST = {
             "reshape_contig_is_view / permuting_views_never_copy characterise when replays are views. The "
             "descriptor model's view-or-copy rule is compared with NumPy on random strided windows; the oracle "
             "checks value, availability and memory sharing for every (view, base) pair, with each consumer "
-            "contributing first (17 view chains x all orderings of up to 3 of 9 consumers).",
+            "contributing first (17 view chains x all orderings of up to 3 of 9 consumers), on C- and Fortran-ordered "
+            "bases, and in multi-epoch histories for every view created since the last backward/clear_graph (the "
+            "base found by walking the view ops recorded in the current epoch, not by trusting .base).",
     "note": "Trusted: Lean kernel, standard axioms, the harness; H_layout is a hypothesis the proof forces and is monitored on "
             "the implementation in every case (it is what the first-contribution copy must guarantee).",
 }
